@@ -43,8 +43,13 @@ def build(rng, kind, axi):
                 B.prop("blockprops", name="d2", kx=5.0, ky=5.0, kt=0.0, qv=0.0)]
         cs = [B.prop("circuits", name="c0", type=1, V=300.0), B.prop("circuits", name="c1", type=1, V=300.0 + V["c1"]), B.prop("circuits", name="c2", type=1, V=300.0 + V["c2"])]
     else:
-        mats = [B.prop("blockprops", name="bg", mu_x=1.0, mu_y=1.0), B.prop("blockprops", name="d1", mu_x=30.0, mu_y=20.0, J_re=rng.choice([1.0, -2.0])),
-                B.prop("blockprops", name="d2", mu_x=5.0, mu_y=5.0, J_re=rng.choice([0.5, 1.5]))]
+        # d1: a solid conductor carrying a source current density (resistive losses J^2/sigma); d2: sometimes a laminated
+        # core (in-plane laminations: its bulk conductivity does not enter the resistive losses), sometimes a second conductor
+        lam = rng.random() < 0.5
+        mats = [B.prop("blockprops", name="bg", mu_x=1.0, mu_y=1.0),
+                B.prop("blockprops", name="d1", mu_x=30.0, mu_y=20.0, J_re=rng.choice([1.0, -2.0]), sigma=rng.choice([58.0, 10.0])),
+                (B.prop("blockprops", name="d2", mu_x=500.0, mu_y=500.0, sigma=5.0, d_lam=0.5, lamtype=0, lamfill=0.95) if lam else
+                 B.prop("blockprops", name="d2", mu_x=5.0, mu_y=5.0, J_re=rng.choice([0.5, 1.5]), sigma=rng.choice([0.0, 30.0])))]
         a0 = B.prop("bdryprops", name="A0", type=0)
         cs = [0, 0, 0]
     if kind == "fem":
@@ -90,7 +95,7 @@ def correspond(ctx):
     if not ctx.quick():
         plan = plan * 5
     TYPES = {"fee": dict(ext=[0, 1, 2], area=1, vol=2, energy=0), "feh": dict(ext=[1, 2], area=1, vol=2, energy=None),
-             "fem": dict(ext=[0, 2, 5, 10, 7], area=5, vol=10, energy=2)}
+             "fem": dict(ext=[0, 2, 5, 10, 7, 4, 6], area=5, vol=10, energy=2)}   # 4 resistive, 6 total losses
     feats, samples, done = {}, [], 0
     for k, (kind, axi) in enumerate(plan):
         p = build(rng, kind, axi)
@@ -119,6 +124,9 @@ def correspond(ctx):
         for ti, t in enumerate(T["ext"]):
             q = lambda j: r["q%d" % (ti * nq + j)][0]
             iA, iB, iAB, iBA, iABA, iAll = (q(j) for j in range(6))
+            if not all(isinstance(v, float) and math.isfinite(v) for v in (iA, iB, iAB, iBA, iABA, iAll)):
+                ctx.fail("block integral %d is not finite: I(A)=%r I(B)=%r I(A u B)=%r I(all)=%r" % (t, iA, iB, iAB, iAll), problem=p, integral=t)
+                continue
             sc = max(abs(iA), abs(iB), abs(iAB), 1e-300)
             if abs(iAB - (iA + iB)) > 1e-9 * sc:
                 ctx.fail("block integral %d is not additive: I(A)+I(B) = %.15g, I(A u B) = %.15g" % (t, iA + iB, iAB), problem=p, integral=t)
